@@ -303,7 +303,7 @@ KNOWN_SEEDS = [
 
 def gen_brew_cases(tier, seed):
     rng = np.random.default_rng(seed)
-    n_cases = 300 if tier == "quick" else 8000
+    n_cases = 300 if tier == "quick" else 6000
     cases = [dict(c) for c in KNOWN_SEEDS]
     for k in range(n_cases):
         n_files = int(rng.choice([1, 1, 2, 3]))
@@ -328,7 +328,7 @@ def gen_brew_cases(tier, seed):
         pred_chunk = int(rng.choice([3, n // 2 + 1, n, n + 1], p=[0.1, 0.3, 0.3, 0.3]))
         read_chunk = int(rng.choice([3, n // 2 + 1, n, n + 1]))
         cases.append(dict(scans=scans, width=width, mode=mode, data_seed=int(rng.integers(0, 10 ** 6)),
-                          fmt=str(rng.choice(["parquet", "tsv"])), folds=folds,
+                          fmt=str(rng.choice(["parquet", "tab"])), folds=folds,
                           workers=int(rng.choice([1, 2])) if tier == "quick" else int(rng.choice([1, 2, 8])),
                           cap=cap, pred_chunk=pred_chunk, read_chunk=read_chunk, rng=int(rng.integers(0, 10 ** 6)),
                           shape=str(rng.choice(["n2", "n"], p=[0.7, 0.3])), shuffle=bool(rng.random() < 0.8)))
@@ -421,7 +421,7 @@ def run_split_case(c):
 
 def check_split(tier, seed):
     rng = np.random.default_rng(seed + 1)
-    n_cases = 1500 if tier == "quick" else 40000
+    n_cases = 1500 if tier == "quick" else 30000
     cases = [dict(scans=[25] * 8 + [100, 101], width=2, mode="plain", folds=3, rng=0)]
     for _ in range(n_cases):
         folds = int(rng.integers(2, 7))
